@@ -12,8 +12,8 @@ import ticc_util as tu
 from common import show_list, frac_str
 
 LEVEL = "other"
-LEAN_PROPS = ["FastTicc.Props.C02", "FastTicc.Props.C03", "FastTicc.Props.C11", "FastTicc.Props.C18"]
-LEAN_HELPERS = ["FastTicc.Proofs.Admm"]
+LEAN_PROPS = ["FastTicc.Props.C02", "FastTicc.Props.Compose", "FastTicc.Props.C03", "FastTicc.Props.C11", "FastTicc.Props.C18"]
+LEAN_HELPERS = ["FastTicc.Proofs.Admm", "FastTicc.Proofs.Compose"]
 RULE = ("(a) step functions (soft threshold, lambda sum, Z update, U update, stopping rule) on dyadic inputs for all (N,W) "
         "with NW<=8 (thorough: <=24), scalar and matrix lambda, rho in {1/8..8}, vs the model at Rat; X update against its "
         "stationarity characterisation; (b) the entry point on generated PSD covariances (full rank, rank deficient, "
@@ -192,6 +192,42 @@ def run(ctx):
                 ctx.violation("impl-violation", "X update is not the positive-definite solution of rho X - X^-1 = rho(Z-U) - S",
                               {"step": True, "NW": [n, 1]}, {"site": "x-update"})
             ctx.count("x_update_cases")
+
+    # ---------------- outer loop: sweeps, first sweep never tested, returns the last X iterate
+    if replay is None:
+        lines, impl = [], []
+        for _ in range(40 if ctx.quick() else 400):
+            maxit = ctx.rng.randint(1, 8)
+            stops = [ctx.rng.choice([0, 0, 1]) for _ in range(maxit)]
+            sweeps = {"n": 0, "last_x": None}
+            ox, oc = solver.admm_update_x, solver.check_convergence
+
+            def ux(args, u, z, S, _o=ox):
+                sweeps["n"] += 1
+                sweeps["last_x"] = _o(args, u, z, S)
+                return sweeps["last_x"]
+
+            def cc(args, u, x, z, z_old, _o=oc):
+                out = _o(args, u, x, z, z_old)
+                return (bool(stops[sweeps["n"] - 1]),) + tuple(out[1:])
+            rs = np.random.RandomState(ctx.rng.randrange(2 ** 31))
+            S = np.atleast_2d(np.cov(rs.randn(8, 2).T))
+            with tu.patched(solver, "admm_update_x", ux), tu.patched(solver, "check_convergence", cc):
+                res = admm.admm_optimize_theta(S, 0.1, 1, 2, max_iterations=maxit)
+            lines.append(f"admmloop {maxit} {show_list(stops)}")
+            impl.append((maxit, stops, sweeps["n"], np.array_equal(np.asarray(res.theta), np.asarray(sweeps["last_x"]))))
+        for (maxit, stops, n, same), mo in zip(impl, ctx.driver.run(lines)):
+            case = {"step": True, "NW": [2, 1], "maxit": maxit, "stops": stops}
+            if not same:
+                ctx.violation("impl-violation", "the optimiser did not return the X iterate of its last sweep", case, {"site": "returns-last-x"})
+            want = next((k + 1 for k in range(1, maxit) if stops[k]), maxit)
+            if n != want:
+                ctx.violation("impl-violation", f"{n} sweeps performed; the rule first holds after sweep {want} (first sweep is never tested)",
+                              case, {"site": "sweep-count"})
+            if int(mo.split(" ")[1]) != n:
+                ctx.violation("correspondence-break", f"admmLoop (model) performs {mo.split(' ')[1]} sweeps, implementation {n}", case)
+            ctx.case(("loop", maxit, tuple(stops)), nontrivial=maxit >= 2)
+        ctx.count("outer_loop_scripts", len(impl))
 
     # ---------------- (b) entry point with KKT certificate
     if replay is not None:
